@@ -8,7 +8,8 @@ import common, impl, s_tree as T
 CMAKE_MODULE = os.path.join(common.REPO, 'cmake', 'cminx.cmake')
 PY = sys.executable
 EXTRA_GROUPS = [['-p', 'PFX'], ['-p', 'my.pre'], ['-e', 'sub/'], ['-e', '*.txt'], ['-e', 'a.cmake', '-e', 'b.cmake'], ['-s', '{SFILE}'],
-                ['--prefix', 'L'], ['-e', 'deep/']]
+                ['--prefix', 'L'], ['-e', 'deep/'], ['-p', 'my prefix'], ['-e', 'dir with space/'], ['-p', 'quo"te'], ['-p', '$dollar{x}'],
+                ['-e', '#hash'], ['-p', 'back\\slash']]
 
 
 def cq(s):
@@ -58,7 +59,7 @@ def run_cli(sb_dir, exe, args):
 
 def gen_input(g, sb_dir):
     kind = g.choice(['dir', 'dir', 'nested', 'file', 'missing', 'syntax-error'])
-    base = os.path.join(sb_dir, 'src'); os.makedirs(base, exist_ok=True)
+    base = os.path.join(sb_dir, g.choice(['src', 'src dir', 'sr$c'])); os.makedirs(base, exist_ok=True)
     if kind in ('dir', 'nested'):
         ch = T.gen_dir(g, 0, max_depth=2 if kind == 'nested' else 0, want_cmake=True)
         p = os.path.join(base, g.choice(['proj', 'my.mod'])); T.materialize(p, ch); return kind, p, True
@@ -87,7 +88,7 @@ def cmake_suite(seed, count, out, drv, budget_s=None):
             out.sample(dict(suite='cmake', input_kind=kind, extra=extra))
             # (a) recorder: argv as CMake builds it vs the model
             r_exe, log = recorder(sb.dir)
-            outa = os.path.join(sb.dir, 'out_a')
+            outa = os.path.join(sb.dir, g.choice(['out_a', 'out a']))
             rc, txt = run_cmake(sb.dir, r_exe, inp, outa, extra)
             out.traces_validated += 1
             argv = json.load(open(log)) if os.path.exists(log) else None
